@@ -13,6 +13,7 @@ ASSUMPTIONS = [
     "the per-operation contracts are composed into 'any interleaving of reads, assignments and deletions' by induction over the "
     "three-state machine; that refinement step is executed concretely by the bounded harness (sequences <= 3/4), not proved",
     "option propagation through .getter/.setter/.deleter (re-construction with **self.attrs) is outside the subset: bounded stand-in",
+    "spec_property.__spec_class_invalidated_by__ (read by bootstrap to build the invalidation map, C11) is under contract; what bootstrap does with it is A-META",
     "__set_name__ (which fixes the slot name every operation uses, and must keep every option) is under contract for both descriptor kinds",
 ]
 EXPLANATION = ("spec_property.__get__/__set__/__delete__ and classproperty.__get__/__set__/__delete__ (with _cache_key and the "
